@@ -53,6 +53,7 @@ package main
 //@     iterates [C02] at_most_one_copy: outCount[sess] <= prev(outCount[sess]) + 1 && (forall s int :: s != ref(sess) ==> outCount[s] == prev(outCount[s]))
 //@     iterates [C02] data_to_readers_only: msg.Data != nil && msg.Pres == nil && msg.Info == nil && sess.proto != MULTIPLEX && pssd.uid != types.ZeroUid && outCount[sess] != prev(outCount[sess]) ==> sess.sid != msg.SkipSid && (pssd.isChanSub || ((pssd.uid in t.perUser) && (effMode(t, pssd.uid) & types.ModeRead) != 0))
 //@     iterates [C02] data_to_every_reader: msg.Data != nil && msg.Pres == nil && msg.Info == nil && sess.proto != MULTIPLEX && pssd.uid != types.ZeroUid && sess.sid != msg.SkipSid && (pssd.isChanSub || ((pssd.uid in t.perUser) && (effMode(t, pssd.uid) & types.ModeRead) != 0)) ==> outCount[sess] == prev(outCount[sess]) + 1
+//@     iterates [C09] typing_never_back_to_the_typist: msg.Info != nil && msg.Pres == nil && msg.Data == nil && msg.Info.What == "kp" && sess.proto != MULTIPLEX && msg.Info.From == userIdText(pssd.uid) ==> outCount[sess] == prev(outCount[sess])
 //@     iterates [C09,C02] receipts_not_to_channel_readers: msg.Info != nil && msg.Pres == nil && msg.Data == nil && msg.Info.Src == "" && sess.proto != MULTIPLEX && pssd.uid != types.ZeroUid && outCount[sess] != prev(outCount[sess]) ==> !pssd.isChanSub && (pssd.uid in t.perUser) && (effMode(t, pssd.uid) & types.ModeRead) != 0
 //@     iterates [C02] original_untouched: msg.Data != nil ==> msg.Data == prev(msg.Data) && msg.Data.Topic == prev(msg.Data.Topic) && msg.Data.From == prev(msg.Data.From) && msg.Data.SeqId == prev(msg.Data.SeqId) && msg.Data.Content == prev(msg.Data.Content)
 //@   assert at call Session.queueOut [C02] copy_is_faithful: msg.Data != nil ==> $1 != nil && $1 != msg && $1.Data != nil && $1.Data != msg.Data && $1.Data.SeqId == msg.Data.SeqId && $1.Data.Content == msg.Data.Content && $1.Data.Head == msg.Data.Head && $1.Data.Timestamp == msg.Data.Timestamp && (!pssd.isChanSub ==> $1.Data.From == msg.Data.From) && (pssd.isChanSub ==> $1.Data.From == "")
@@ -204,6 +205,11 @@ package main
 //@   ensures [C09] future_dropped: old(msg.Note.SeqId > t.lastID) ==> (forall s int :: outCount[s] == old(outCount[s])) && (forall u types.Uid :: (u in t.perUser) == old(u in t.perUser) && t.perUser[u].readID == old(t.perUser[u].readID) && t.perUser[u].recvID == old(t.perUser[u].recvID))
 //@   ensures [C09] needs_read: old(msg.Note.What == "read" || msg.Note.What == "recv") && old((effMode(t, types.ParseUserId(msg.AsUser)) & types.ModeRead) == 0) ==> (forall s int :: outCount[s] == old(outCount[s])) && (forall u types.Uid :: t.perUser[u].readID == old(t.perUser[u].readID) && t.perUser[u].recvID == old(t.perUser[u].recvID))
 //@   ensures [C09] deleted_dropped: old(msg.Note.What == "read" || msg.Note.What == "recv" || msg.Note.What == "kp" || msg.Note.What == "kpa" || msg.Note.What == "kpv") && old(t.perUser[types.ParseUserId(msg.AsUser)].deleted) ==> (forall s int :: outCount[s] == old(outCount[s])) && (forall u types.Uid :: t.perUser[u].readID == old(t.perUser[u].readID) && t.perUser[u].recvID == old(t.perUser[u].recvID))
+// (what is relayed names the true sender and repeats the note; the originating session is skipped; typing notes come
+// from writers only, read and received notes from readers only, never from a removed participant)
+//@   assert at call broadcastToSessions [C09] relayed_faithfully: $1 != nil && $1.Info != nil && $1.Data == nil && $1.Pres == nil && $1.Info.From == msg.AsUser && $1.Info.What == msg.Note.What && $1.Info.SeqId == msg.Note.SeqId && $1.Info.Topic == msg.Original && $1.Info.Src == "" && $1.SkipSid == msg.sess.sid
+//@   assert at call broadcastToSessions [C09] typing_from_writers_only: msg.Note.What == "kp" || msg.Note.What == "kpa" || msg.Note.What == "kpv" ==> (effMode(t, types.ParseUserId(msg.AsUser)) & types.ModeWrite) != 0 && !t.perUser[types.ParseUserId(msg.AsUser)].deleted
+//@   assert at call broadcastToSessions [C09] marks_from_readers_only: msg.Note.What == "read" || msg.Note.What == "recv" ==> (effMode(t, types.ParseUserId(msg.AsUser)) & types.ModeRead) != 0 && !t.perUser[types.ParseUserId(msg.AsUser)].deleted
 //@   assert at call Update [C09] recv_persisted: pud.recvID != old(t.perUser[types.ParseUserId(msg.AsUser)].recvID) ==> recv == pud.recvID
 //@   assert at call Update [C09] read_persisted: pud.readID != old(t.perUser[types.ParseUserId(msg.AsUser)].readID) ==> read == pud.readID
 //@   modifies inferred
